@@ -4,7 +4,7 @@ from __future__ import annotations
 import ast
 from typing import List, Optional, Set
 
-from ..an import count_on_paths, cut, flows_from_calls, is_method_call, yields_at
+from ..an import count_on_paths, cut, flows_from_calls, is_method_call, with_flags, yields_at
 from ..cfg import calls_at, node_exprs
 from ..core import Checker
 from ..loader import Func, norm, walk_expr, walk_own
@@ -88,7 +88,13 @@ def check(ck: Checker) -> None:
                     ck.require(w is None, "C08.once", fn, t, "suppression of a change requires typ == UNCHANGED", "a change that is not UNCHANGED can be suppressed by with_unchanged=False", witness=g.fmt_path(w) if w else None)
 
     # ------------------------------------------------------- shortcut/descent
-    descents = [n for n in g.nodes.values() if h.id in n.loops for c in calls_at(n) if is_method_call(c, "append", "appendleft", "extend") and norm(c.func.value) == "todo"]
+    # the work queue: the container popped at the top of the outer loop
+    queue = None
+    for n in g.nodes.values():
+        for c in calls_at(n):
+            if is_method_call(c, "popleft", "pop") and isinstance(c.func.value, ast.Name) and n.loops and h.id not in n.loops:
+                queue = c.func.value.id
+    descents = [n for n in g.nodes.values() if h.id in n.loops for c in calls_at(n) if is_method_call(c, "append", "appendleft", "extend") and norm(c.func.value) == queue]
     ck.floor("C08.descent", len(descents), 1, "descent (todo.append) sites in the per-key loop")
     dids = {d.id for d in descents}
     required = {
@@ -104,15 +110,16 @@ def check(ck: Checker) -> None:
     # region after the shortcut/descent construct: first node that is reached on every path; use the
     # loop header as the target and stop at yield / both-None tests by not treating them specially.
     for name, lit in required.items():
-        def skip_edge(a, lab, b, lit=lit):
-            if lab == "exc":
-                return True
+        def base_lit(a, lab, lit=lit):
             if a.kind == "test" and lit(a, lab):
                 return True
             # "neither side is a directory": the no-descent exit of the directory test(s)
-            if a.kind == "test" and _is_dir_atom(a) and lab == "F" and "new" in norm(a.ast):
-                return True
-            return False
+            return a.kind == "test" and _is_dir_atom(a) and lab == "F" and "new" in norm(a.ast)
+
+        lifted = with_flags(g, base_lit, start=h.id)
+
+        def skip_edge(a, lab, b, lifted=lifted):
+            return lab == "exc" or lifted(a, lab)
 
         rr = g.reach(starts, skip_node=lambda x: x.id in dids, skip_edge=skip_edge)
         bad = h.id in rr
@@ -170,17 +177,28 @@ def _renames(ck: Checker) -> None:
             w = cut(g, [n.id], lambda t, lab, typ=typ: t.kind == "test" and norm(t.ast) in (f"change.typ == {typ}", f"{typ} == change.typ") and lab == "T", start=first.id)
             ck.require(w is None, "C08.renames", fn, n, f"`{bucket}` receives only {typ} changes", f"`{bucket}` can receive changes that are not {typ}", witness=g.fmt_path(w) if w else None)
     # the structure whose remainder is yielded at the end
-    tail = [n for n in g.nodes.values() if not n.loops and yields_at(n)]
+    tail = []
     table = None
-    for n in tail:
-        for e in node_exprs(n):
+    for n in g.nodes.values():
+        if not yields_at(n):
+            continue
+        encl = [g.nodes[i] for i in n.loops]
+        if any(norm(x.ast.iter) == "changes" for x in encl if x.kind == "for"):
+            continue
+        srcs = list(node_exprs(n)) + [x.ast.iter for x in encl if x.kind == "for"]
+        for e in srcs:
             for x in walk_expr(e):
                 if isinstance(x, ast.Call) and is_method_call(x, "values") and isinstance(x.func.value, ast.Name):
                     table = x.func.value.id
+                    tail.append(encl[0] if encl and any(y is x for y in walk_expr(encl[0].ast.iter)) else n)
     ck.require(table is not None, "C08.renames", fn, tail[0] if tail else fn.node, "unmatched deletions are yielded at the end", "the unmatched deletions are not yielded after pairing", construct="yield from <remaining deletions>")
     if table is None:
         return
-    adds = next((h for h in loops if norm(h.ast.iter) == "added"), None)
+    adds = None
+    for h_ in loops:
+        body_y = [n for n in g.nodes.values() if h_.id in n.loops and yields_at(n)]
+        if body_y and norm(h_.ast.iter) != "changes" and not any(isinstance(x, ast.Call) and is_method_call(x, "values") for x in walk_expr(h_.ast.iter)):
+            adds = h_
     if adds is None:
         ck.fail("C08.renames", fn, fn.node, "no loop over the additions")
         return
